@@ -30,6 +30,18 @@ CLAIMED = {
    technique="explicit-state breadth-first model checking of copy/mutate histories (sharing-aware canonical state key) with per-transition replay on the real interpreter",
    text="Breadth-first search from the empty state over 58 actions on three variables (index writes with numeric and dictionary keys, nested writes, rock, roll, copies by assignment / element / argument / result, scalar coercion, error actions, observation actions), to depth 4 (quick) / 5 (thorough). States are deduplicated on values plus the partition of array occurrences that may still share storage, so the one history that exposes missing copy-on-write is never merged away. Every transition is validated by replaying history + action + a language-level observation of all three variables (every index 0..len, every dictionary key, one level of nesting) on the real interpreter in both builds against the reference.",
    note="Trusted: reference interpreter and the canonicalisation argument (DESIGN §2 C06). Depth-bounded: the frontier does not close under the caps (sequence length <=4, nesting <=2); states beyond the caps are validated but not expanded."),
+ "C07": dict(level="exploration", design="§2 C07",
+   technique="bounded exhaustive enumeration of operand strings / arrays / numerals / radices / code points / rounding boundaries x operand-destination forms, executed on the real interpreter and compared with naive reference algorithms",
+   text="All strings <=4 over a 5-symbol alphabet x all delimiters <=2 (split), all arrays of <=3 elements incl. non-strings at every position, dictionary-only and empty arrays x 6 delimiters (join), all numeral strings <=4/5 over an 11-symbol alphabet x 15 radices incl. 0, 1, 37, -1, 2.5, 1e30, NaN and non-numbers (cast), 15 boundary code points, 16 rounding boundaries x 8 spellings, every wrong operand / parameter kind of U - each in up to 8 operand/destination forms (in place on variable / pronoun, into variable / subscript / pronoun from variable / pronoun / subscript / literal). After each operation the result and the operand are observed element by element and compared with reference algorithms written for clarity.",
+   note="Trusted: reference algorithms in refmodel/value.rs. Skipped as unspecified: negative rounding ties, exotic numerals (inf, nan, padded), position of dictionary values in a join."),
+ "C08": dict(level="fault_enumeration", design="§2 C08",
+   technique="deviation-bounded exhaustive enumeration of environment answers (short/failed reads and writes at every call point) for all small say/listen programs x inputs, on the real interpreter with harness-controlled Read/Write objects",
+   text="All sequences of <=4/5 statements over a say/listen alphabet x 11 inputs; the reader and writer handed to exec_using record every call and answer from a schedule. For each (program, input) the default schedule is run, then every alternative answer (1-byte short write, Interrupted, Ok(0), Err(Other), Err(BrokenPipe); 1-byte read, whole-input read, Interrupted, Err(Other)) at every call point, recursively up to 2-4 deviations. Judged against a line model: benign deviations change nothing; after a hard fault execution returns an error, the accepted bytes are a prefix of the fault-free output, and no further read or write call is made; every read call happens exactly when the output due before some listen has been written.",
+   note="Trusted: the line model from the reference interpreter. Not judged: how many read calls a listen makes (buffering). CR is not in the input alphabet."),
+ "C09": dict(level="exploration", design="§2 C09",
+   technique="bounded exhaustive enumeration of ill-typed programs (every statement template x every value-kind filler in every slot, stray-control sequences, degenerate poetic literals) executed in a precondition-asserting build and in the release build",
+   text="Every statement form with 1..3 slots x 26 fillers (a name bound to each value kind incl. NaN, 1e30, empty / non-empty / dictionary arrays, a function name, a never-assigned name, a pronoun with and without referent, literals, calls, rolls, saturating indices) in every slot, all sequences <=3/4 of stray break/continue/return items across top-level blocks, and all sequences <=3/4 of degenerate poetic atoms after 7 heads: each parser-accepted program within the reference resource budget is executed in both builds. Verdict: no panic, abort, signal or hang; a renderable error; identical observable result in both builds; and the reference outcome wherever the reference defines one (76% of executed cases).",
+   note="Trusted: the checked build asserts rrss's unsafe preconditions; worker deaths are attributed by re-running the chunk in announce mode. Programs beyond the step/size budget are not executed; unspecified programs are judged for crash-freedom only."),
 }
 NOT_YET = "check under construction in this session (not yet claimed)"
 ids=[json.loads(l)["id"] for l in open("/verif/properties.jsonl")]
